@@ -10,7 +10,7 @@ MODE = 'expandg'
 
 
 def mkcfg(c):
-    c = copy.deepcopy(c); o = dict(B); o.update(c.get('options', {})); c['options'] = o; return c
+    c = copy.deepcopy(c); c.pop('own', None); o = dict(B); o.update(c.get('options', {})); c['options'] = o; return c
 
 
 ATTR_POOL = [('attr', 'title', 'v', 'raw'), ('attr', 'title', 'a b', 'dq'), ('attr', 'data-x', 'y', 'sq'), ('attr', 'lang', None, None), ('attr', 'rel', 'e', 'expr'),
@@ -22,7 +22,7 @@ TEXT_POOL = ['txt', 'a b', 'x > y + z', 'item', 'l1', ' sp ']
 
 def base_opt(prop):
     names = mk.PLAIN + mk.VOID
-    if prop == 'C01': return dict(names=names + [n for n in mk.INLINE_DOC if n not in ('br', 'img', 'input', 'select', 'a', 'label', 'map', 'object', 'iframe', 'textarea', 'button', 'basefont', 'applet', 'font')] + ['EM', 'Span', 'Q', 'S', 'Kbd', 'UL', 'Tr'], p_void_child=.25, p_noname=.2, p_class=.25, p_id=.1, p_attr=.1, p_text=.1, p_rep=.2, attr_pool=ATTR_POOL[:7], text_pool=TEXT_POOL, p_group=.25, p_grep=.4, max_rep=3)
+    if prop == 'C01': return dict(names=names + [n for n in mk.INLINE_DOC if n not in ('br', 'img', 'input', 'select', 'a', 'label', 'map', 'object', 'iframe', 'textarea', 'button', 'basefont', 'applet', 'font')] + ['EM', 'Span', 'Q', 'S', 'Kbd', 'UL', 'Tr'], p_void_child=.25, p_noname=.2, p_class=.25, p_id=.1, p_attr=.1, p_text=.1, p_rep=.2, attr_pool=ATTR_POOL[:7], text_pool=TEXT_POOL + ['see ${1} now', '${2:x} y', 'a ${0} b'], p_group=.25, p_grep=.4, max_rep=3)
     if prop == 'C02': return dict(names=[n for n in mk.PLAIN if n not in ('select', 'option', 'optgroup')], p_noname=.05, p_class=.4, p_id=0, p_attr=.3, p_text=.35, p_rep=.45, attr_pool=[ATTR_POOL[0], ATTR_POOL[2], ATTR_POOL[5]], text_pool=TEXT_POOL[:5],
                                   p_group=.25, p_grep=.6, max_rep=4, num=.6)
     if prop == 'C03': return dict(names=['div', 'p', 'span', 'section', 'x', 'ul', 'li', 'em', 'h1', 'td'], p_class2=.12, p_noname=.15, p_class=.6, p_id=.4, p_attr=.8, p_text=.1, p_rep=.1, attr_pool=ATTR_POOL, text_pool=TEXT_POOL[:2],
@@ -37,8 +37,13 @@ C03_CFGS = [{}, {'options': {'output.attributeQuotes': 'single'}}, {'options': {
             {'options': {'output.attributeCase': 'upper'}}, {'syntax': 'jsx'}, {'syntax': 'vue'}, {'syntax': 'xml'}, {'options': {'output.selfClosingStyle': 'xhtml', 'output.compactBoolean': True, 'output.reverseAttributes': True}},
             {'options': {'output.booleanAttributes': ['lang', 'foo']}}, {'syntax': 'jsx', 'options': {'output.attributeCase': 'upper'}}, {'syntax': 'vue', 'options': {'output.attributeCase': 'upper'}},
             {'syntax': 'jsx', 'options': {'output.attributeCase': 'lower', 'output.reverseAttributes': True}},
-            {'snippets': {'pair': 'dt+dd', 'trio': 'dt+dd+dl'}}, {'snippets': {'pair': 'dt+dd', 'trio': 'dt+dd+dl'}, 'options': {'output.reverseAttributes': True}}]
+            {'snippets': {'pair': 'dt+dd', 'trio': 'dt+dd+dl'}}, {'snippets': {'pair': 'dt+dd', 'trio': 'dt+dd+dl'}, 'options': {'output.reverseAttributes': True}},
+            {'options': {'markup.attributes': {'class': 'klass', 'title': 'data-title', 'for': 'html-for'}}}, {'syntax': 'vue', 'options': {'markup.attributes': {'class': 'klass', 'for': 'htmlFor'}}},
+            {'snippets': {'pair': 'dt[title=term]+dd[lang=en]', 'trio': 'dt[data-a=1]+dd[data-b=2 title=u]+dl'}, 'own': 1},
+            {'snippets': {'pair': 'dt[title=term]+dd[lang=en]', 'trio': 'dt[data-a=1]+dd[data-b=2 title=u]+dl'}, 'options': {'output.reverseAttributes': True}, 'own': 1}]
 C03_ALIASES = {'pair': ['dt', 'dd'], 'trio': ['dt', 'dd', 'dl']}
+# attributes the definitions of the `own` tables carry themselves (in front of what is written on the alias; behind it under reverseAttributes)
+C03_OWN = {'pair': [[('attr', 'title', 'term', 'raw')], [('attr', 'lang', 'en', 'raw')]], 'trio': [[('attr', 'data-a', '1', 'raw')], [('attr', 'data-b', '2', 'raw'), ('attr', 'title', 'u', 'raw')], []]}
 
 
 def strip_note(seq):
@@ -120,7 +125,7 @@ def cases(tier, seed, prop):
         # exhaustive numbering forms on three carriers
         for N in range(1, 6 if tier == 'quick' else 13):
             for w in (1, 2, 3):
-                for form in ('', '@0', '@2', '@10', '@-', '@-3', '@-0'):
+                for form in ('', '@0', '@2', '@10', '@-', '@-3', '@-0', '@98', '@-97', '@999'):
                     t = '$' * w + form
                     for carrier in ('name', 'attr', 'text', 'group'):
                         e = {'k': 'elem', 'name': 'x', 'mentions': [], 'text': None, 'rep': N, 'slash': False}
@@ -187,7 +192,11 @@ def cases(tier, seed, prop):
                     out.append({'w': w, 'tpl': tpl, 'c': {'options': {'output.format': False}}, 'g': 'text-exh'})
         for _ in range(n):
             w = gen_w(rnd, rnd.randint(1, 12))
-            out.append({'w': w, 'tpl': rnd.randrange(len(TEXT_TPL)), 'c': rnd.choice([{}, {'options': {'output.format': False}}, {'syntax': 'xml'}]), 'g': 'text'})
+            out.append({'w': w, 'tpl': rnd.randrange(len(TEXT_TPL)), 'c': rnd.choice([{}, {'options': {'output.format': False}}, {'syntax': 'xml'}, {'syntax': 'jsx'}, {'syntax': 'jsx', 'options': {'output.format': False}}]), 'g': 'text'})
+        # multi-line texts whose lines begin with blanks: laid out one line per text line, every blank kept
+        for w in ('  a\nb', ' \tq\n r', 'a\n  b', '   x y\n\n  z'):
+            exp = '<x>\n' + ''.join('\t' + l + '\n' for l in w.split('\n')) + '</x>'
+            out.append({'w': w, 'tpl': 0, 'c': {'options': {'output.format': False}}, 'expect_full': exp, 'g': 'text-lines'})
         for _ in range(n // 2):
             lines = [rnd.choice(WRAP_LINES) for _ in range(rnd.randint(0, 5))]
             k = rnd.randrange(len(WRAP_TPL))
@@ -265,8 +274,8 @@ def cases(tier, seed, prop):
         names = ['div', 'p', 'span', 'ul', 'li', 'em', 'b', 'hr', 'br', 'strong', 'section', 'x', 'table', 'tr', 'td', 'article', 'body', 'i', 'h1', 'nav']
         if prop == 'C15': names = names + ['samp', 'kbd', 'var', 'code', 'q', 's', 'tt', 'sub', 'sup', 'cite', 'dfn', 'u', 'small', 'big', 'del', 'ins', 'strike']
         o12 = dict(base_opt('C04'), names=names, p_attr=.3, p_text=.35, p_noname=.1, p_void_child=.25,
-                   attr_pool=[('attr', 'title', 'v', 'raw'), ('attr', 'data-x', 'a b', 'dq'), ('attr', 'lang', None, None), ('attr', 'rel', 'e', 'expr')] if prop == 'C12' else [('attr', 'title', 'v', 'raw'), ('attr', 'data-x', 'a b', 'dq'), ('attr', 'd', 'M0', 'raw'), ('attr', 'as', 'font', 'raw'), ('attr', 'a', '1', 'raw'), ('attr', 's', 'z', 'dq'), ('attr', 'rel', 'e', 'expr'), ('attr', 'on', 'f(x)', 'expr'), ('bool', 'hidden'), ('bool', 'foo'), ('bool', 'disabled'), ('implied', 'dir', None), ('implied', 'lang', 'en'), ('implied', 'dir', None), ('attr', 'class', 'x\ty', 'dq'), ('attr', 'class', 'q  r', 'dq'), ('attr', 'class', 'u \t v', 'dq')],
-                   text_pool=['txt', 'a b', 'l1\nl2', 'one\ntwo\nthree', 'x', ' sp ', 'first\rsecond', 'p\r\nq'] if prop == 'C12' else ['txt', 'a b', 'l1\nl2', 'one\ntwo\nthree', 'x', 'first\rsecond', 'a\x0bb', 'p\r\nq', 'Item\n$ of 3', 'n\n$$\n$ x', '$\nb', 'first\n\nthird', '\nfoo', 'a\n\n\nb'])
+                   attr_pool=[('attr', 'title', 'v', 'raw'), ('attr', 'data-x', 'a b', 'dq'), ('attr', 'lang', None, None), ('attr', 'rel', 'e', 'expr')] if prop == 'C12' else [('attr', 'title', 'v', 'raw'), ('attr', 'data-x', 'a b', 'dq'), ('attr', 'd', 'M0', 'raw'), ('attr', 'as', 'font', 'raw'), ('attr', 'a', '1', 'raw'), ('attr', 's', 'z', 'dq'), ('attr', 'rel', 'e', 'expr'), ('attr', 'on', 'f(x)', 'expr'), ('bool', 'hidden'), ('bool', 'foo'), ('bool', 'disabled'), ('implied', 'dir', None), ('implied', 'lang', 'en'), ('implied', 'dir', None), ('attr', 'class', 'x\ty', 'dq'), ('attr', 'class', 'q  r', 'dq'), ('attr', 'class', 'u \t v', 'dq'), ('attr', 'class', 'cls', 'expr'), ('attr', 'id', 'uid', 'expr'), ('attr', 'id', 'main', 'dq')],
+                   text_pool=['txt', 'a b', 'l1\nl2', 'one\ntwo\nthree', 'x', ' sp ', 'first\rsecond', 'p\r\nq', '${1:one} two\nthree', 'a ${1} b\nc', '${2}${1:k}\nz'] if prop == 'C12' else ['txt', 'a b', 'l1\nl2', 'one\ntwo\nthree', 'x', 'first\rsecond', 'a\x0bb', 'p\r\nq', 'Item\n$ of 3', 'n\n$$\n$ x', '$\nb', 'first\n\nthird', '\nfoo', 'a\n\n\nb'])
         for _ in range(n):
             seq = mk.gen_seq(rnd, o12, [rnd.randint(1, 8)], 2)
             tidy_C13(seq)
@@ -274,12 +283,15 @@ def cases(tier, seed, prop):
                 insert_empty_text(rnd, seq)
             if prop == 'C12':
                 c = {'syntax': rnd.choice(['html', 'html', 'xml', 'xsl', 'jsx', 'vue', 'svelte'])}
-                out.append({'seq': seq, 'c': dict(c, options=rand_layout(rnd)), 'alt': dict(c, options=rand_layout(rnd)), 'g': 'random'})
+                # content options (the same on both sides): letter case of tag / attribute names
+                cont = {} if rnd.random() < .75 else rnd.choice([{'output.tagCase': 'upper'}, {'output.tagCase': 'lower'}, {'output.tagCase': 'upper', 'output.attributeCase': 'upper'}])
+                out.append({'seq': seq, 'c': dict(c, options=dict(rand_layout(rnd), **cont)), 'alt': dict(c, options=dict(rand_layout(rnd), **cont)), 'g': 'random'})
             else:
                 c = {'syntax': rnd.choice(['haml', 'pug', 'slim'])}
                 if rnd.random() < .5: c['options'] = {'output.indent': rnd.choice(['\t', '  ', '    ', ' '])}
+                if rnd.random() < .15: c.setdefault('options', {})['output.tagCase'] = 'upper'
                 ps_ = mk.print_seq(seq)
-                if '\n\n' in ps_ or '{\n' in ps_: c.pop('options', None)      # blank text lines are padded with blanks: keep the indentation unit (a tab) distinguishable
+                if '\n\n' in ps_ or '{\n' in ps_: (c.get('options') or {}).pop('output.indent', None)      # blank text lines are padded with blanks: keep the indentation unit (a tab) distinguishable
                 out.append({'seq': seq, 'c': c, 'g': 'random'})
         if prop == 'C12':
             # text nodes with fields and children (the children replace the first field; what follows it must survive every layout)
@@ -475,7 +487,12 @@ def oracle_C03(case, o):
             tops = C03_ALIASES.get(el['name']) if 'snippets' in case['c'] else None
             if tops:
                 # multi-root alias: its id / classes / attributes go to every top-level element, its children into the last one
-                for t in tops: els.append(dict(el, name=t))
+                for ti_, t in enumerate(tops):
+                    if case['c'].get('own'):
+                        own_ = C03_OWN[el['name']][ti_]
+                        rev_ = (case['c'].get('options') or {}).get('output.reverseAttributes')
+                        els.append(dict(el, name=t, mentions=(list(el['mentions']) + own_) if rev_ else (own_ + list(el['mentions']))))
+                    else: els.append(dict(el, name=t))
             else: els.append(el)
             walk(el['kids'])
     walk(forest)
@@ -599,6 +616,8 @@ def oracle_C04_kids(case, o):
 def oracle_C04_text(case, o):
     if o[0] != 'ok': return ['no-output| expand(%r) -> %s %s' % (case['s'], o[0], o[1])]
     if case.get('kids'): return oracle_C04_kids(case, o)
+    if 'expect_full' in case:
+        return [] if o[1] == case['expect_full'] else ['text-lines| expand(%r) = %r, expected %r' % (case['s'], o[1], case['expect_full'])]
     want = case['want'] if 'want' in case else decode(case['w'])
     # the whole output of the template: the text is the content of ITS element and nothing else changes (what follows the text in the
     # abbreviation is still abbreviation syntax)
@@ -1006,18 +1025,21 @@ BOOL_DOC = ['contenteditable', 'seamless', 'async', 'autofocus', 'autoplay', 'ch
             'novalidate', 'readonly', 'required', 'reversed', 'selected', 'typemustmatch']
 
 
+TAGCASE = ['']          # output.tagCase of the case being judged (set by oracle_C15)
+
+
 def lines_of(forest, sy, depth, acc):
     """one line per element at its depth: name#id.class.class + the syntax's attribute list; `div` omitted when id / class present;
     multi-line text one line per text line one level deeper"""
     for el in forest:
-        ids = [m[1] for m in el['mentions'] if m[0] == 'id']
+        ids = [m[1] for m in el['mentions'] if m[0] == 'id'] + [m[2] for m in el['mentions'] if m[0] == 'attr' and m[1] == 'id' and m[2]]      # an id given in attribute form (any notation) is the id
         cls = []          # class names: the shorthand mentions and the words of a class given in attribute form, in the order written
         for m in el['mentions']:
             if m[0] == 'class': cls.append(m[1])
             elif m[0] == 'attr' and m[1] == 'class' and m[2]: cls += m[2].split()
         attrs = []
         for m in el['mentions']:
-            if m[0] == 'attr' and m[1] == 'class': continue
+            if m[0] == 'attr' and m[1] in ('class', 'id'): continue
             if m[0] == 'attr' and m[1] not in [a[0] for a in attrs]: attrs.append((m[1], m[2], m[3]))
             elif m[0] == 'bool' and m[1] not in [a[0] for a in attrs]: attrs.append((m[1], None, 'bool'))
             elif m[0] == 'implied' and m[2] is not None and m[1] not in [a[0] for a in attrs]: attrs.append((m[1], m[2], 'raw'))      # an implied attribute without value is dropped
@@ -1027,7 +1049,7 @@ def lines_of(forest, sy, depth, acc):
         head = ('%' if sy == 'haml' else '') + name if not (name == 'div' and (ids or cls)) else ''
         done = set()
         for m in el['mentions']:          # id / class shorthands in the order they were first written
-            if m[0] == 'id' and 'id' not in done: head += '#' + ids[-1]; done.add('id')
+            if (m[0] == 'id' or (m[0] == 'attr' and m[1] == 'id')) and 'id' not in done: head += '#' + ids[-1]; done.add('id')
             elif (m[0] == 'class' or (m[0] == 'attr' and m[1] == 'class')) and 'class' not in done: head += ''.join('.' + c for c in cls); done.add('class')
         if attrs:
             # an expression keeps its braces; a boolean attribute without value: `name=true` in haml, the bare name in pug and slim
@@ -1057,7 +1079,9 @@ def oracle_C15(case, o):
     sy = case['c']['syntax']; ind = opt.get('output.indent'); nl = opt.get('output.newline')
     forest = mk.unroll(mk.flat(case['seq']))
     mk.implicit_names(forest, None, inline_doc(case['c']))
+    TAGCASE[0] = opt.get('output.tagCase') or ''
     want = lines_of(forest, sy, 0, [])
+    TAGCASE[0] = ''
     got = []
     for line in o[1].split(nl):
         k = 0; body = line
